@@ -359,11 +359,11 @@ theorem postM_tablerowCols (P : Prims) (L : List Nat) (tr : Bool) (cols : Option
     cases cv <;> exact postM_pure _ True.intro
   · exact postM_pure _ True.intro
 
-theorem postM_loopRun (P : Prims) (path : Bytes) (L : List Nat) (loc : Loc) (hl : loc.line = 0 ∨ loc.line ∈ L)
+theorem postM_loopRun {budget : Int} (P : Prims) (path : Bytes) (L : List Nat) (loc : Loc) (hl : loc.line = 0 ∨ loc.line ∈ L)
     (tr : Bool) (var : Bytes) (e : Expr) (mods : LoopMods)
     {bodyM : M Status} (hb : PostM (InnerOK L) (StatusOK L) bodyM) (tooMany : Bool) (elseM : Option (M Status))
     (he : ∀ m, elseM = some m → PostM (InnerOK L) (StatusOK L) m) :
-    PostM (OuterOK L) (StatusOK L) (loopRun P path loc tr var e mods bodyM tooMany elseM) := by
+    PostM (OuterOK L) (StatusOK L) (loopRun budget P path loc tr var e mods bodyM tooMany elseM) := by
   unfold loopRun
   refine postM_wrapAt path L loc hl (postM_bind postM_getEnv (fun env _ => postM_bind (postM_ofRes L _) (fun v _ =>
     postM_bind (postM_ofRes L _) (fun items0 _ => postM_bind (postM_intModifier P L _ _ hl) (fun off _ =>
